@@ -389,6 +389,61 @@ func C08(c *core.Ctx) {
 			run("any-mrtd", desc, q, &validate.Options{TdQuoteBodyOptions: validate.TdQuoteBodyOptions{AnyMrTd: l}})
 		}
 	}
+	// every expectation configured and met, then exactly one of them missed
+	// (one expectation must not switch another one off)
+	{
+		full := func() *validate.Options {
+			o := &validate.Options{}
+			for _, f := range optFields {
+				f.set(o, append([]byte{}, f.get(q)...))
+			}
+			for _, e := range q.TdQuoteBody.Rtmrs {
+				o.TdQuoteBodyOptions.Rtmrs = append(o.TdQuoteBodyOptions.Rtmrs, append([]byte{}, e...))
+			}
+			o.TdQuoteBodyOptions.AnyMrTd = [][]byte{flip(q.TdQuoteBody.MrTd, 3), append([]byte{}, q.TdQuoteBody.MrTd...)}
+			o.HeaderOptions.MinimumQeSvn = binary.LittleEndian.Uint16(q.Header.QeSvn)
+			o.HeaderOptions.MinimumPceSvn = binary.LittleEndian.Uint16(q.Header.PceSvn)
+			return o
+		}
+		run("all-met", "every expectation configured and met", q, full())
+		for _, f := range optFields {
+			if f.name == "MinimumTeeTcbSvn" {
+				continue
+			}
+			for _, vn := range []string{"diff-first", "diff-last"} {
+				o := full()
+				f.set(o, fieldVariants(r, f.get(q))[vn])
+				run("all-but-one", "all met except "+f.name+" "+vn, q, o)
+			}
+		}
+		for i := 0; i < 4; i++ {
+			o := full()
+			o.TdQuoteBodyOptions.Rtmrs[i] = flip(o.TdQuoteBodyOptions.Rtmrs[i], 47*(i%2))
+			run("all-but-one", fmt.Sprintf("all met except RTMR %d", i), q, o)
+		}
+		for _, l := range [][][]byte{{flip(q.TdQuoteBody.MrTd, 0)}, {flip(q.TdQuoteBody.MrTd, 47)}, {flip(q.TdQuoteBody.MrTd, 0), flip(q.TdQuoteBody.MrTd, 47), make([]byte, 48)}} {
+			o := full()
+			o.TdQuoteBodyOptions.AnyMrTd = l
+			run("all-but-one", fmt.Sprintf("all met except AnyMrTd (%d non-members)", len(l)), q, o)
+		}
+		if v := binary.LittleEndian.Uint16(q.Header.QeSvn); v < 65535 {
+			o := full()
+			o.HeaderOptions.MinimumQeSvn = v + 1
+			run("all-but-one", "all met except the minimum QE SVN", q, o)
+		}
+		if v := binary.LittleEndian.Uint16(q.Header.PceSvn); v < 65535 {
+			o := full()
+			o.HeaderOptions.MinimumPceSvn = v + 1
+			run("all-but-one", "all met except the minimum PCE SVN", q, o)
+		}
+		for i := 0; i < 16; i++ {
+			if q.TdQuoteBody.TeeTcbSvn[i] < 255 {
+				o := full()
+				o.TdQuoteBodyOptions.MinimumTeeTcbSvn[i]++
+				run("all-but-one", fmt.Sprintf("all met except TEE TCB SVN component %d", i), q, o)
+			}
+		}
+	}
 	// random combinations
 	for i := 0; i < c.Scale(300, 10000); i++ {
 		q2 := validQuoteMsg(r)
